@@ -2,6 +2,7 @@ package main
 
 import (
 	"fmt"
+	"go/token"
 	"go/types"
 	"golang.org/x/tools/go/ssa"
 	"runtime/debug"
@@ -157,6 +158,42 @@ func (u *Unit) Run() {
 			}
 		}
 		u.addOblNamed(st, "structure", "structure/defers-before", "`defer "+a+"` is registered before `defer "+b+"` (so "+b+" runs first)", fn.Pos(), BoolLit(ia >= 0 && ib >= 0 && ia < ib))
+	}
+	if want := ct.Flags["drains"]; want != "" {
+		// structural obligation "drains=1,3": loop N - a range over a channel - is left
+		// only through its header, i.e. when the channel is closed: no return, break or
+		// goto leaves it from inside the body (the sender on the other end would stay
+		// blocked on its send for ever)
+		loops, _, _ := findLoops(fn)
+		for _, ord := range strings.Split(want, ",") {
+			ord = strings.TrimSpace(ord)
+			var li *loopInfo
+			for _, l := range loops {
+				if fmt.Sprint(l.ordinal) == ord {
+					li = l
+				}
+			}
+			ok := li != nil
+			isChanRange := false
+			if li != nil {
+				for _, in := range li.header.Instrs {
+					if uo, isU := in.(*ssa.UnOp); isU && uo.Op == token.ARROW {
+						isChanRange = true
+					}
+				}
+				for b := range li.blocks {
+					if b == li.header {
+						continue
+					}
+					for _, sc := range b.Succs {
+						if !li.blocks[sc] {
+							ok = false
+						}
+					}
+				}
+			}
+			u.addOblNamed(st, "structure", "structure/drains#"+ord, "loop "+ord+" reads its channel until it is closed: nothing leaves the loop from inside its body", fn.Pos(), BoolLit(ok && isChanRange))
+		}
 	}
 	if fn.Synthetic == "package initializer" && fn.Pkg != nil {
 		// the run that matters is the first one: the guard is still down
